@@ -7,16 +7,16 @@ Definition list_eqb (a b : list nat) : bool :=
 
 (* both sequential orders leave exactly the new operation pending *)
 Lemma sequential_orders :
-  pending_after (repeat true 7 ++ repeat false 3) = [2] /\ pending_after (repeat false 3 ++ repeat true 7) = [2].
+  pending_after (repeat true 7 ++ repeat false 5) = [2] /\ pending_after (repeat false 5 ++ repeat true 7) = [2].
 Proof. vm_compute. split; reflexivity. Qed.
 
-(* all 120 interleavings of the 7 store calls of the request with the 3 of PutOperation: the outcome
+(* all 792 interleavings of the 7 store calls of the request with the 5 of PutOperation: the outcome
    is the sequential one unless the poller's pool write falls into the request's read-write window
    on `operations`, in which case the new operation is lost; a retired operation never returns *)
 Lemma all_interleavings_decided :
   forallb (fun sc => if in_lost_window sc then list_eqb (pending_after sc) []
-                     else list_eqb (pending_after sc) [2]) (interleavings 7 3) = true /\
-  length (interleavings 7 3) = 120.
+                     else list_eqb (pending_after sc) [2]) (interleavings 7 5) = true /\
+  length (interleavings 7 5) = 792.
 Proof. vm_compute. split; reflexivity. Qed.
 
 Lemma list_eqb_eq a b : list_eqb a b = true -> a = b.
@@ -27,7 +27,7 @@ Proof.
 Qed.
 
 Theorem interleaving_outcome sc :
-  In sc (interleavings 7 3) ->
+  In sc (interleavings 7 5) ->
   (in_lost_window sc = false -> pending_after sc = [2]) /\
   (in_lost_window sc = true -> pending_after sc = []).
 Proof.
@@ -37,7 +37,7 @@ Qed.
 
 (* the full statement (every interleaving is serialisable) is refuted *)
 Theorem serialisable_refuted :
-  exists sc, In sc (interleavings 7 3) /\ pending_after sc <> [2].
+  exists sc, In sc (interleavings 7 5) /\ pending_after sc <> [2].
 Proof.
-  exists [true; true; true; true; true; true; false; false; false; true]. split; [vm_compute; tauto|vm_compute; discriminate].
+  exists [true; true; true; true; true; true; false; false; false; false; false; true]. split; [vm_compute; tauto|vm_compute; discriminate].
 Qed.
